@@ -590,6 +590,68 @@ def run(chk):
     if not ok_o:
         chk.violation(r_ep, "rstep_offset", "ExtESmry::open_esmry no longer records the stream position immediately before the header that is then checked to be RSTEP: every vector position computed from it is shifted", oe["file"], st_o[pos_i[0]]["l"] if pos_i else oe["l"])
 
+    # ---- C10.loadonce: a series is appended to only while it is not marked loaded
+    r_lo = chk.rule("C10.loadonce", "ESmry keeps one float series per vector (vectorData[k]) and a flag vectorLoaded[k]; every append to a series happens under `!vectorLoaded[k]` for the same k - directly in the guarding condition, or because k runs over a local list that only received indices under that test - so loading single vectors first and everything afterwards (get(), then loadData() / make_esmry_file()) never doubles a series", floor=6)
+    from verif.tree import children as _children_lo
+    for f in fx.fns:
+        if not f.get("body") or not f["file"].endswith("/ESmry.cpp"):
+            continue
+        found = []
+
+        def rec(n, conds, loops):
+            if n.get("k") == "MCall" and n.get("m") == "push_back" and isinstance(n.get("obj"), dict):
+                o = strip(n["obj"])
+                if o.get("k") in ("Idx", "OpCall") and show(strip((o.get("c") or o.get("a"))[0])).replace("this.", "") == "vectorData":
+                    found.append((n, show(strip((o.get("c") or o.get("a"))[1])), list(conds), list(loops)))
+            if n.get("k") == "If" and isinstance(n.get("cond"), dict):
+                rec(n["cond"], conds, loops)
+                if isinstance(n.get("then"), dict):
+                    rec(n["then"], conds + [n["cond"]], loops)
+                if isinstance(n.get("else"), dict):
+                    rec(n["else"], conds, loops)
+                return
+            if n.get("k") == "ForRange":
+                for c in _children_lo(n):
+                    rec(c, conds, loops + [n])
+                return
+            if n.get("k") == "Lambda":
+                return
+            for c in _children_lo(n):
+                rec(c, conds, loops)
+        rec(f["body"], [], [])
+
+        def conjuncts(c):
+            c = strip(c)
+            if c.get("k") == "Bin" and c.get("op") == "&&":
+                return conjuncts(c["c"][0]) + conjuncts(c["c"][1])
+            return [show(c).replace("this.", "").replace(".operator bool()", "")]
+        for n, ix, conds, loops in found:
+            key = "%s:%s@%d" % (f["q"].split("::")[-1] + ("/%d" % len(f["params"])), ix, n["l"])
+            direct = any("(!vectorLoaded[%s])" % ix in conjuncts(c) for c in conds)
+            via = None
+            if not direct:
+                for lp in loops:
+                    if isinstance(lp.get("var"), dict) and lp["var"].get("n") == ix and strip(lp["range"]).get("k") == "Ref":
+                        L = strip(lp["range"])["n"]
+                        adds = []
+
+                        def rec2(m, cs):
+                            if m.get("k") == "MCall" and m.get("m") in ("push_back", "emplace_back") and isinstance(m.get("obj"), dict) and strip(m["obj"]).get("n") == L:
+                                adds.append((m, list(cs)))
+                            if m.get("k") == "If" and isinstance(m.get("cond"), dict):
+                                if isinstance(m.get("then"), dict):
+                                    rec2(m["then"], cs + [m["cond"]])
+                                if isinstance(m.get("else"), dict):
+                                    rec2(m["else"], cs)
+                                return
+                            for c in _children_lo(m):
+                                rec2(c, cs)
+                        rec2(f["body"], [])
+                        via = bool(adds) and all(any("(!vectorLoaded[%s])" % show(strip(m["a"][0])) in conjuncts(c) for c in cs) for m, cs in adds)
+            chk.instance(r_lo, key, sample=dict(function=f["q"], line=n["l"], index=ix, guarded_directly=direct, guarded_through_list=via))
+            if not direct and not via:
+                chk.violation(r_lo, key, "%s appends to vectorData[%s] at line %d without testing !vectorLoaded[%s]: a vector that was loaded on its own before (get(), dates(), loadData({..})) gets every value a second time, so the series is twice as long as the number of time steps" % (f["q"], ix, n["l"], ix), f["file"], n["l"])
+
     # ---- C10.stale: a derived ESMRY file of an earlier run never survives the start of a new run
     r_st = chk.rule("C10.stale", "ESmry::make_esmry_file refuses to replace an existing <CASE>.ESMRY (returns false when the file exists); therefore the summary writer removes an existing <CASE>.ESMRY when it is constructed, whatever its options: the removal is guarded by the existence of that file only - otherwise the readers are served the previous run's series", floor=2)
     mk = fx.fn1("Opm::EclIO::ESmry::make_esmry_file")
